@@ -15,7 +15,10 @@ from streamflow.workflow.token import JobToken
 ID = "C15"
 LEVEL = "exploration"
 RULE = (
-    "scatter/gather workflows with 2..16 concurrent jobs per step (plus pipelines and diamonds) on the real "
+    "two modes. Remote (1/3 of the runs): 1..2 ScheduleSteps with 1..8 jobs each on a shell-based remote deployment "
+    "with 2..3 locations (SimShellConnector: real sh per location in a private mount namespace), every job allocated "
+    "on 1..L locations, optionally fixed directories for one step, optionally the k-th mkdir on a non-first location "
+    "fails. Local: scatter/gather workflows with 2..16 concurrent jobs per step (plus pipelines and diamonds) on the real "
     "LocalConnector with per-run scratch work directories; optionally the binding fixes the input/output/tmp "
     "directory of one step; optional schedule-phase failures (directory creation fails) recovered by the rollback "
     "manager; seeded latencies for every database, scheduler and filesystem step. Oracle evaluated at the instant "
@@ -26,16 +29,141 @@ RULE = (
 )
 COMPONENTS = {
     "real": ["ScheduleStep._schedule/_set_job_directories", "DefaultScheduler", "DefaultDataManager.register_path/get_data_locations",
-             "LocalStreamFlowPath.mkdir/resolve (real filesystem)", "LocalConnector", "RollbackFailureManager (for failed directory creation)"],
+             "LocalStreamFlowPath.mkdir/resolve (real filesystem)", "RemoteStreamFlowPath.mkdir/resolve over the persistent shell", "LocalConnector", "RollbackFailureManager (for failed directory creation)"],
     "stub": ["SimCommand/SimTransferStep/SimOutputProcessor (harness job bodies)", "aiosqlite thread -> FIFO server"],
 }
-ASSUMPTIONS = ["local locations only in this check; the shell-based remote location is exercised by C22/C24/C25 (directory creation there goes through the same StreamFlowPath API)"]
+ASSUMPTIONS = ["the remote mode schedules jobs without executing them (ScheduleStep + DeployStep only): the statement is about what a scheduled job receives"]
 TIERS = {"quick": {"runs": 500, "budget_s": 55}, "thorough": {"runs": 30000, "budget_s": 480}}
 SIM_KW = _c16.SIM_KW
 
 
+def run_remote(sim, params):
+    """Shell-based remote deployment with several locations; jobs allocated on 1..L locations each."""
+    import asyncio
+
+    from ..harness import shellconn  # noqa: F401
+    from ..harness.engine import make_context
+    from streamflow.core.config import BindingConfig
+    from streamflow.core.deployment import DeploymentConfig, Target
+    from streamflow.core.exception import WorkflowExecutionException
+    from streamflow.core.workflow import Token, Workflow
+    from streamflow.workflow.executor import StreamFlowExecutor
+    from streamflow.workflow.step import DeployStep
+    from streamflow.workflow.token import TerminationToken
+
+    t = sim.tape
+    nloc = 2 + t.draw(2, "remote.nloc")
+    per_job = 1 + t.draw(nloc, "remote.locations_per_job")
+    nsteps = 1 + t.draw(2, "remote.nsteps")
+    njobs = (1, 2, 3, 5, 8)[t.draw(5, "remote.njobs")]
+    fixed_step = t.draw(nsteps + 2, "remote.fixed")  # index of the step whose dirs are fixed, or none
+    fault_at = (None, None, None, 1, 2, 4, 7)[t.draw(7, "remote.mkdir.fault")]
+    info = {"mode": "remote", "locations": nloc, "locations_per_job": per_job, "steps": nsteps, "jobs": njobs,
+            "fixed_step": fixed_step if fixed_step < nsteps else None, "mkdir_fails_at": fault_at}
+    problems = []
+    seen = {}
+    counters = {"tokens": 0, "mkdir": 0, "fault_fired": False}
+
+    async def main():
+        ctx = make_context(sim)
+        wf = Workflow(context=ctx, name="w", config={})
+        names = [f"n{i}" for i in range(nloc)]
+        cfg = DeploymentConfig(name="rem", type="simshell", config={"locations": names, "cores": 64.0, "memory": 65536.0}, external=False, lazy=False, workdir=None)
+        await ctx.deployment_manager.deploy(cfg)
+        conn = ctx.deployment_manager.get_connector("rem")
+        vroot = conn.visible_root("n0")
+        workdir = os.path.join(vroot, "wd")
+        # fault: the k-th mkdir on a location other than the first fails once
+        orig_run = conn.run
+
+        async def run(location, command, **kw):
+            if command and command[0] == "mkdir" and location.name != "n0":
+                counters["mkdir"] += 1
+                if fault_at is not None and counters["mkdir"] == fault_at:
+                    counters["fault_fired"] = True
+                    sim.fault("remote_mkdir_fails")
+                    await sim.io("run", location.name)
+                    return ("mkdir: cannot create directory: No space left on device", 1) if kw.get("capture_output") else None
+            return await orig_run(location, command, **kw)
+
+        conn.run = run
+        deploy = wf.create_step(DeployStep, name="/__deploy__/rem", deployment_config=cfg)
+        ports = []
+        for si in range(nsteps):
+            binding = BindingConfig(targets=[Target(deployment=cfg, locations=per_job, workdir=workdir)])
+            kw = {}
+            is_fixed = si == fixed_step
+            if is_fixed:
+                kw = {"input_directory": os.path.join(vroot, "fixed", "in"), "output_directory": os.path.join(vroot, "fixed", "out"),
+                      "tmp_directory": os.path.join(vroot, "fixed", "tmp")}
+            st = wf.create_step(ScheduleStep, name=f"/S{si}/__schedule__", job_prefix=f"/S{si}", connector_ports={"rem": deploy.get_output_port()},
+                                binding_config=binding, **kw)
+            p = wf.create_port()
+            st.add_input_port("x", p)
+            ports.append(p)
+            _hook(st.get_output_port(), ctx, conn, is_fixed)
+        await wf.save(ctx.database)
+        for p in ports:
+            for i in range(njobs):
+                p.put(Token(value=i, tag=f"0.{i}"))
+            p.put(TerminationToken())
+        try:
+            await StreamFlowExecutor(wf).run()
+            return "ok"
+        except WorkflowExecutionException:
+            return "raised"
+        finally:
+            await ctx.deployment_manager.undeploy_all()
+            await ctx.close()
+
+    def _hook(port, ctx, conn, is_fixed):
+        orig = port.put
+
+        def put(token):
+            if isinstance(token, JobToken):
+                job = token.value
+                counters["tokens"] += 1
+                locs = ctx.scheduler.get_locations(job.name)
+                if len(locs) != per_job:
+                    problems.append(("wrong_allocation", f"job {job.name} allocated on {len(locs)} locations instead of {per_job}"))
+                for d, what in ((job.input_directory, "input"), (job.output_directory, "output"), (job.tmp_directory, "tmp")):
+                    for loc in locs:
+                        if not d or not os.path.isdir(conn.real_path(loc.name, d)):
+                            problems.append(("missing_directory", f"job {job.name}: {what} directory {d!r} does not exist on location {loc.name} when the job token is emitted"
+                                             f"{' (a mkdir failed there)' if counters['fault_fired'] else ''}"))
+                            continue
+                        dl = ctx.data_manager.get_data_locations(d, loc.deployment, loc.name)
+                        if not dl:
+                            problems.append(("not_registered", f"job {job.name}: {what} directory {d} is not registered on location {loc.name}"))
+                        elif not all(x.available.is_set() for x in dl):
+                            problems.append(("not_available", f"job {job.name}: {what} directory {d} registered but not available on {loc.name}"))
+                    if not is_fixed:
+                        other = seen.get(d)
+                        if other is not None and other != job.name:
+                            problems.append(("shared_directory", f"jobs {other} and {job.name} share the {what} directory {d}"))
+                        seen[d] = job.name
+            return orig(token)
+
+        port.put = put
+
+    status = sim.run(main())
+    d = f"case={canon(info)}"
+    if problems:
+        k, msg = problems[0]
+        raise Violation(k, f"{msg}; {d}", signature=f"{k}:remote")
+    if status == "raised" and not counters["fault_fired"]:
+        raise Violation("run_failed", f"scheduling failed without any fault: {sim.errors[-2:]}; {d}", signature="run_failed:remote")
+    if status == "ok" and counters["tokens"] != nsteps * njobs:
+        raise Violation("jobs_missing", f"{counters['tokens']} job tokens emitted for {nsteps * njobs} jobs although the run completed; {d}", signature="jobs_missing:remote")
+    sim.probe("job_tokens_checked", counters["tokens"])
+    sim.probe("remote_mode")
+    return {"nontrivial": per_job > 1 or njobs >= 4, "sample": info}
+
+
 def run(sim, params):
     t = sim.tape
+    if t.draw(3, "mode.remote") == 0:
+        return run_remote(sim, params)
     kind = ("sg", "sg", "sg2", "pipe", "diamond")[t.draw(5, "shape")]
     if kind in ("sg", "sg2"):
         shape = {"kind": kind, "n": (2, 3, 4, 8, 11, 16)[t.draw(6, "n")], "m": 1 + t.draw(2, "m")}
